@@ -4,6 +4,8 @@
 package race
 
 import (
+	"encoding/base64"
+	"encoding/hex"
 	"bytes"
 	"fmt"
 	"math/rand/v2"
@@ -193,12 +195,29 @@ func valOptions(q *pb.QuoteV4, spare int) (*validate.Options, map[string][]byte)
 	t := q.TdQuoteBody
 	o := &validate.Options{HeaderOptions: validate.HeaderOptions{QeVendorID: mk(q.Header.QeVendorId)},
 		TdQuoteBodyOptions: validate.TdQuoteBodyOptions{MinimumTeeTcbSvn: mk(t.TeeTcbSvn), TdAttributes: mk(t.TdAttributes), Xfam: mk(t.Xfam), MrSeam: mk(t.MrSeam), MrTd: mk(t.MrTd), MrConfigID: mk(t.MrConfigId), MrOwner: mk(t.MrOwner),
-			MrOwnerConfig: mk(t.MrOwnerConfig), ReportData: mk(t.ReportData), Rtmrs: [][]byte{mk(t.Rtmrs[0]), nil, mk(t.Rtmrs[2]), nil}, AnyMrTd: [][]byte{mk(make([]byte, 48)), mk(t.MrTd)}}}
+			MrOwnerConfig: mk(t.MrOwnerConfig), ReportData: mk(t.ReportData), Rtmrs: [][]byte{mk(t.Rtmrs[0]), nil, mk(t.Rtmrs[2]), nil}, AnyMrTd: [][]byte{mk(bytes.Repeat([]byte{0xff}, 48)), mk(t.MrTd), mk(make([]byte, 48))}}}
 	to := o.TdQuoteBodyOptions
 	extra := map[string][]byte{"opt.qe_vendor_id": o.HeaderOptions.QeVendorID, "opt.min_tee_tcb_svn": to.MinimumTeeTcbSvn, "opt.td_attributes": to.TdAttributes, "opt.xfam": to.Xfam, "opt.mr_seam": to.MrSeam, "opt.mr_td": to.MrTd,
 		"opt.mr_config_id": to.MrConfigID, "opt.mr_owner": to.MrOwner, "opt.mr_owner_config": to.MrOwnerConfig, "opt.report_data": to.ReportData,
-		"opt.rtmr0": to.Rtmrs[0], "opt.rtmr2": to.Rtmrs[2], "opt.any_mr_td0": to.AnyMrTd[0], "opt.any_mr_td1": to.AnyMrTd[1]}
+		"opt.rtmr0": to.Rtmrs[0], "opt.rtmr2": to.Rtmrs[2], "opt.any_mr_td0": to.AnyMrTd[0], "opt.any_mr_td1": to.AnyMrTd[1], "opt.any_mr_td2": to.AnyMrTd[2]}
 	return o, extra
+}
+
+// listIdentity: which byte slice (address, length) stands at which position of the policy's list-valued options — a check that
+// reorders or replaces the entries of the caller's list has written to the caller's options even if every byte is still somewhere.
+func listIdentity(o *validate.Options) string {
+	if o == nil {
+		return ""
+	}
+	var sb strings.Builder
+	for _, l := range [][][]byte{o.TdQuoteBodyOptions.Rtmrs, o.TdQuoteBodyOptions.AnyMrTd} {
+		fmt.Fprintf(&sb, "[%d:", len(l))
+		for _, e := range l {
+			fmt.Fprintf(&sb, "%p/%d,", unsafe.SliceData(e), len(e))
+		}
+		sb.WriteString("]")
+	}
+	return sb.String()
 }
 
 func honestWorld(rng *rand.Rand, authLen int) *world.World {
@@ -328,8 +347,12 @@ func TestC16(t *testing.T) {
 			ref := proto.Clone(q).(*pb.QuoteV4)
 			for _, e := range entries {
 				before := snapshot(q, extra)
+				listsBefore := listIdentity(vo)
 				verdictS, stack := hx.Guard(func() string { return e.call(q, w, vo) })
 				dirty := before.diff(q, extra)
+				if dirty == "" && listIdentity(vo) != listsBefore {
+					dirty = "the option lists (which slice stands at which position of Rtmrs / AnyMrTd)"
+				}
 				obs := "clean"
 				fail := ""
 				if verdictS == "panic" {
@@ -354,6 +377,40 @@ func TestC16(t *testing.T) {
 				} else {
 					r.Emit(fmt.Sprintf("# C16.snapshot entry=%s src=%s auth=%d", e.name, src, authLen), obs, fail, fmt.Sprintf("%s|%s|%d", e.name, src, authLen), true,
 						"snapshot:"+src, "entry:"+e.name, "obs:"+strings.SplitN(obs, ":", 2)[0])
+				}
+			}
+		}
+		// raw inputs of every spelling — the quote's bytes, the same as base64 / hex text, text with a line break, plain garbage —
+		// through the three entry points that take raw bytes: the buffer is the caller's, up to its capacity, whether or not the
+		// input is accepted
+		if wi < 3 || tier == "thorough" {
+			b64 := []byte(base64.StdEncoding.EncodeToString(raw))
+			forms := map[string][]byte{"binary": raw, "base64": b64, "base64+newline": append(append([]byte{}, b64...), '\n'), "base64-damaged": append(append([]byte{}, b64[:len(b64)/2]...), []byte("!!!!")...),
+				"hex": []byte(hex.EncodeToString(raw)), "garbage": []byte("this is not a quote"), "binary-cut": raw[:len(raw)/2]}
+			for fname, form := range forms {
+				for _, ep := range []string{"abi.QuoteToProto", "verify.RawTdxQuote", "validate.RawTdxQuote"} {
+					buf := append(make([]byte, 0, len(form)+32), form...)
+					for i := len(form); i < cap(buf); i++ {
+						buf[:cap(buf)][i] = sentinel
+					}
+					want := append([]byte{}, buf[:cap(buf)]...)
+					res, stack := hx.Guard(func() string {
+						switch ep {
+						case "abi.QuoteToProto":
+							_, err := abi.QuoteToProto(buf)
+							return verdict(err)
+						case "verify.RawTdxQuote":
+							return verdict(verify.RawTdxQuote(buf, vopts(w, false, false)))
+						}
+						return verdict(validate.RawTdxQuote(buf, &validate.Options{}))
+					})
+					obs, fail := "clean", ""
+					if res == "panic" {
+						obs, fail = "panic", "crash: "+strings.SplitN(stack, "\n", 2)[0]
+					} else if !bytes.Equal(buf[:cap(buf)], want) {
+						obs, fail = "dirty", fmt.Sprintf("%s wrote to the caller's raw input buffer (input spelled as %s, %d bytes, capacity %d; the call returned %s)", ep, fname, len(form), cap(buf), res)
+					}
+					r.Emit(fmt.Sprintf("# C16.rawinput world=%d form=%s entry=%s", wi, fname, ep), obs, fail, fmt.Sprintf("rawinput|%d|%s|%s", wi, fname, ep), true, "rawinput:"+fname, "entry:"+ep, "obs:"+obs)
 				}
 			}
 		}
@@ -393,7 +450,7 @@ func TestC16(t *testing.T) {
 	if tier == "thorough" {
 		workers, iters = 48, 1500
 	}
-	for _, src := range []string{"parsed", "arena"} {
+	for _, src := range []string{"parsed", "arena", "uncounted-nul"} {
 		cmd := exec.Command(os.Args[0], "-test.run", "^TestRaceWorker$", "-test.count=1")
 		cmd.Env = append(os.Environ(), "TDX_OUT=", fmt.Sprintf("TDX_RACE_WORKERS=%d", workers), fmt.Sprintf("TDX_RACE_ITERS=%d", iters), "TDX_RACE_SRC="+src,
 			fmt.Sprintf("TDX_SEED=%d", seed), "GORACE=halt_on_error=0 exitcode=66")
@@ -464,6 +521,13 @@ func TestRaceWorker(t *testing.T) {
 	var q *pb.QuoteV4
 	if os.Getenv("TDX_RACE_SRC") == "arena" {
 		q, _ = spread(w.Quote, 128)
+	} else if os.Getenv("TDX_RACE_SRC") == "uncounted-nul" {
+		// a message the checks refuse (the chain bytes end in a NUL that the size fields do not count): refused inputs are
+		// shared between goroutines just the same, and a check that "repairs" its input for the duration of the call writes to it
+		q = proto.Clone(w.Quote).(*pb.QuoteV4)
+		pc := q.SignedData.CertificationData.QeReportCertificationData.PckCertificateChainData
+		pc.PckCertChain = append(append(make([]byte, 0, len(pc.PckCertChain)+9), bytes.TrimRight(pc.PckCertChain, "\x00")...), 0)
+		pc.Size = uint32(len(pc.PckCertChain) - 1)
 	} else {
 		any, err := abi.QuoteToProto(raw)
 		if err != nil {
